@@ -458,45 +458,89 @@ def gen_oct(rng, nsets, nq):
 
 
 
-# ---- AMRDensityGrid (oracle only: the model side answers with constants)
+# ---- AMRDensityGrid: the model holds the same tree (explicit refinement keys)
 
-AMRD_N = [(1, 1, 1), (2, 2, 2), (4, 4, 4), (6, 3, 12), (3, 3, 3), (8, 4, 2), (2, 6, 10), (12, 12, 4)]
+AMRD_NB = [(1, 1, 1), (3, 1, 1), (1, 3, 2), (3, 3, 3), (2, 3, 1), (5, 2, 1), (1, 1, 3)]
 
 
-def gen_amrd(rng, ngrids, nloc, nray):
+def gen_amrd(rng, ngrids, nloc, nray, maxcells=900):
     import math
     ops = []
     for gi in range(ngrids):
         kind, a, s = rand_box(rng)
         while kind in ("huge", "tiny"):
             kind, a, s = rand_box(rng)
-        n = rng.choice(AMRD_N)
+        nb = rng.choice(AMRD_NB)           # at least one odd block count: the class keeps this block layout
+        level = rng.choice([0, 1, 1, 2])
         per = [rng.randint(0, 1) for _ in range(3)] if gi % 3 else [0, 0, 0]
         # a single cell across a periodic axis is its own neighbour: the traversal never wraps the
         # position and spins with ds = 0 (degenerate configuration, reported, not generated)
-        per = [per[i] if n[i] >= 2 else 0 for i in range(3)]
-        depth = rng.choice([0, 1, 2, 3, 4])
-        focus = [a[i] + s[i] * rng.random() for i in range(3)]
-        ops.append("amrd new %s %d %d %d %d %d %d %d %d %s" % (" ".join(fb(v) for v in a + s), n[0], n[1], n[2],
-                                                            per[0], per[1], per[2], rng.randrange(1 << 30), depth,
-                                                            " ".join(fb(v) for v in focus)))
-        for _ in range(nloc):
-            k = rng.choice(["inside", "inside", "focus", "wall", "lowface"])
-            if k == "inside":
-                pt = [a[i] + s[i] * rng.random() for i in range(3)]
-            elif k == "focus":
-                pt = [focus[i] + 0.05 * s[i] * rng.gauss(0, 1) for i in range(3)]
-            elif k == "wall":     # dyadic fractions of the box: walls of refined cells (when the block count is a power of two)
-                pt = [a[i] + s[i] * (rng.randint(0, 63) / 64.0) if rng.random() < 0.7 else a[i] + s[i] * rng.random() for i in range(3)]
+        per = [per[i] if nb[i] * (1 << level) >= 2 else 0 for i in range(3)]
+        def all_paths(l):
+            if l == 0:
+                return [()]
+            return [(c,) + r for c in range(8) for r in all_paths(l - 1)]
+        leaves = [((ix, iy, iz), pth) for ix in range(nb[0]) for iy in range(nb[1]) for iz in range(nb[2])
+                  for pth in all_paths(level)]
+        keys = []
+        style = rng.choice(["none", "random", "deep", "deep", "edge"])
+        nref = 0 if style == "none" else rng.randint(1, 25)
+        for _ in range(nref):
+            if len(leaves) + 7 > maxcells:
+                break
+            if style == "deep":
+                leaf = rng.choice(sorted(leaves, key=lambda l: -len(l[1]))[:8])
+            elif style == "edge":      # cells at the faces of the box: wraps into refined neighbours
+                cand = [l for l in leaves if l[0][0] in (0, nb[0] - 1) or l[0][2] in (0, nb[2] - 1)]
+                leaf = rng.choice(cand or leaves)
             else:
-                pt = [a[i] if rng.random() < 0.5 else a[i] + s[i] * rng.random() for i in range(3)]
-            # stay clear of the top faces and (for block counts with odd factors) of exact block walls:
-            # the AMR locate defect (known finding) would abort the harness here
-            pt = [min(max(pt[i], a[i]), a[i] + s[i] * (1.0 - 1e-9)) for i in range(3)]
+                leaf = rng.choice(leaves)
+            if len(leaf[1]) >= 6:
+                continue
+            blk, pth = leaf
+            keys.append(amr_key(blk[0], blk[1], blk[2], pth))
+            i = leaves.index(leaf)
+            leaves[i:i + 1] = [(blk, pth + (c,)) for c in range(8)]
+        kx = rng.randint(1, 7)
+        xs = [rng.choice([1.0, 0.25, rng.uniform(0.2, 2.0)]) for _ in range(kx)]
+        kd = rng.randint(1, 3)
+        ds = [rng.choice([1.0, rng.uniform(0.5, 3.0)]) for _ in range(kd)]
+        ops.append("amrd new %s %d %d %d %d %d %d %d %s | %s | %s" % (
+            " ".join(fb(v) for v in a + s), nb[0], nb[1], nb[2], level, per[0], per[1], per[2],
+            " ".join(fb(v) for v in xs), " ".join(fb(v) for v in ds), " ".join(str(k) for k in keys)))
+        for _ in range(nloc):
+            lf = rng.choice(leaves)
+            an, sd = amr_leaf_box(a, s, tuple(nb[i] for i in range(3)), lf[0], lf[1])
+            k = rng.choice(["inside", "inside", "wall", "mid", "lowface", "topface"])
+            pt = []
+            for i in range(3):
+                if k == "inside":
+                    pt.append(an[i] + sd[i] * rng.random())
+                elif k == "wall":
+                    pt.append(rng.choice([an[i], an[i] + sd[i]]) if rng.random() < 0.6 else an[i] + sd[i] * rng.random())
+                elif k == "mid":
+                    pt.append(an[i] + 0.5 * sd[i])
+                elif k == "lowface":
+                    pt.append(a[i] if rng.random() < 0.5 else an[i] + sd[i] * rng.random())
+                else:
+                    pt.append(below(a[i] + s[i], a[i], s[i]) if rng.random() < 0.5 else an[i] + sd[i] * rng.random())
+            pt = [below(max(pt[i], a[i]), a[i], s[i]) for i in range(3)]
             ops.append("amrd loc " + " ".join(fb(v) for v in pt))
         L = min(s)
+        kappa = (sum(xs) / len(xs)) * (sum(ds) / len(ds))
         for _ in range(nray):
-            pt = [a[i] + s[i] * (0.02 + 0.96 * rng.random()) for i in range(3)]
+            lf = rng.choice(leaves)
+            an, sd = amr_leaf_box(a, s, tuple(nb[i] for i in range(3)), lf[0], lf[1])
+            sk = rng.choice(["inside", "inside", "inside", "wall", "mid"])
+            pt = []
+            for i in range(3):
+                if sk == "inside":
+                    pt.append(an[i] + sd[i] * (0.02 + 0.96 * rng.random()))
+                elif sk == "wall":
+                    pt.append(an[i] if rng.random() < 0.5 else an[i] + sd[i] * rng.random())
+                else:
+                    pt.append(an[i] + 0.5 * sd[i])
+            pt = [below(max(pt[i], a[i]), a[i], s[i]) for i in range(3)]
             dk = rng.choice(["axis", "generic", "generic", "plane-diag", "diag"])
             if dk == "axis":
                 d = [0.0, 0.0, 0.0]
@@ -511,10 +555,10 @@ def gen_amrd(rng, ngrids, nloc, nray):
             nn = math.sqrt(sum(v * v for v in d))
             d = [v / nn for v in d]
             sh = rng.choice([1.0, 0.5, 2.3])
-            u = rng.choice([1e-5, 10 ** rng.uniform(-3, -1), rng.uniform(0.1, 1.5), rng.uniform(1.5, 5.0), 1e3 if not any(per) else 4.0])
-            ops.append("amrd ray %s" % " ".join(fb(v) for v in pt + d + [1.5 * sh * L * u, sh]))
+            u = rng.choice([1e-5, 10 ** rng.uniform(-3, -1), rng.uniform(0.1, 1.5), rng.uniform(1.5, 5.0),
+                            1e3 if not any(per) else 4.0])
+            ops.append("amrd ray %s" % " ".join(fb(v) for v in pt + d + [kappa * sh * L * u, sh]))
     return ops
-
 
 # --------------------------------------------------------------------------- run
 
@@ -534,6 +578,8 @@ def float_positions(w):
         return set(range(6, 12))
     if w[:2] == ["amr", "loc"] and len(w) == 9:
         return set(range(3, 9))
+    if w[:2] == ["amrd", "ray"]:
+        return {3, 4, 5, 7} | set(range(9, len(w), 2))
     if w[:2] == ["cart", "ray"]:
         return {3, 4, 5, 7} | set(range(9, len(w), 2))
     if w[:2] == ["pl", "near"] and len(w) == 4:
